@@ -92,10 +92,13 @@ def _len_worker(n):
         if same:
             bad.append(('edit', n, name))
     npf = 0
-    for i in range(n):
+    tree_desc = get_merkle_tree(list(lst))
+    for i in list(range(n)) + [-(j + 1) for j in range(n)]:
         npf += 1
         try:
-            p = get_proof(tree, i)
+            # ascending on one tree object, then descending on another: producing a proof must not disturb later ones
+            p = get_proof(tree, i) if i >= 0 else get_proof(tree_desc, n + i)
+            i = i if i >= 0 else n + i
             lv = []
             proof_leaves(p, lv)
             ph = p.hash()
@@ -152,8 +155,8 @@ def _block_edits(ctx):
 
 
 def run(ctx):
-    a, L = (3, 8) if ctx.quick else (4, 9)
-    N = 33 if ctx.quick else 130
+    a, L = (3, 9) if ctx.quick else (4, 9)
+    N = 80 if ctx.quick else 140
     jobs = [(a, L, f) for f in range(a)]
     if not ctx.quick:
         jobs += [(2, 16, f) for f in range(2)]
